@@ -27,6 +27,7 @@ RULE = (
     "Non-trivial = a value with an escape sequence, a modifier chain, or a transformed / correlation "
     "/ filter document."
 )
+RULE += (" Values under the expand modifier with placeholders, escaped percent signs and both are a fixed set.")
 RULE += (" A transformation that fails half-way (convert_type num over items of which a later one is not a number) leaves what it changed: the object is then still written faithfully or not at all.")
 RULE += (" " + 'Key-collision documents are drawn in addition: several items that serialise to one dict key (flag-alias spellings re|i / re|ignorecase without a pipeline, many-to-one field mappings with one, explicit |all items); reloaded queries may differ as text only if they are pairwise equivalent by truth table over the decoded leaves.')
 RULE += (" Every standard attribute a document sets must reappear in the dict; log sources carry further keys; items with an empty value list occur.")
@@ -73,6 +74,8 @@ def decode(x):
     if isinstance(x, dict):
         if set(x) == {"__date__"}:
             return datetime.date.fromisoformat(x["__date__"])
+        if set(x) == {"__datetime__"}:   # an unquoted YAML timestamp with a time of day arrives as datetime object
+            return datetime.datetime.fromisoformat(x["__datetime__"])
         return {k: decode(v) for k, v in x.items()}
     if isinstance(x, list):
         return [decode(v) for v in x]
@@ -315,7 +318,7 @@ META = {
     "fields": ["a", "b"], "falsepositives": ["none"], "level": "high", "scope": ["server"],
     "related": [{"id": UUID2, "type": "derived"}], "taxonomy": "custom", "custom_attr": {"x": [1, {"y": None}]},
 }
-DATES = ["2024-01-02", "2024/1/2", "2024/01/02", {"__date__": "2024-01-02"}]
+DATES = ["2024-01-02", "2024/1/2", "2024/01/02", {"__date__": "2024-01-02"}, {"__datetime__": "2024-01-02T10:30:00"}]
 
 CTX_RULES = [
     {"title": "r1", "name": "r1", "id": "00000000-0000-4000-8000-000000000001", "logsource": {"category": "proc", "product": "windows"},
@@ -441,7 +444,15 @@ def halfway_cases(draw):
     return {"kind": "transformed", "doc": doc, "transform": tr}
 
 
+EXPAND_VALUES = ["x\\%y\\%z", "\\%a\\%", "50\\%", "%a%\\%", "\\%%a%", "%a%", "a%", "100\\% of %b%", ["\\%x\\%", "%a%"]]
+
+
 def run(ctx) -> None:
+    # values under the expand modifier: placeholders, escaped percent signs (no placeholder) and both
+    for k, v in enumerate(EXPAND_VALUES):
+        for key in ("a|expand", "a|expand|contains", "|expand"):
+            if k % ctx.nshards == ctx.shard:
+                ctx.do({"kind": "rule", "doc": {"title": "t", "logsource": {"category": "c"}, "detection": {"sel": {key: v}, "condition": "sel"}}})
     n = 500 if ctx.tier == "quick" else 6000
     ctx.hyp(halfway_cases(), n // 2, salt=5)
     ctx.hyp(rule_cases(), n, salt=1)
